@@ -41,7 +41,10 @@ def concretize(case, variant):
     else:
         data["c"] = range(1, n + 1); coll, item = "c", "{{x}}"
     parts = []
+    item0 = item
     for i, lp in enumerate(case["prog"]):
+        var = lp.get("var", "x")
+        item = item0.replace("x", var)
         L = "forloop" if lp["kind"] == "for" else "tablerowloop"
         args = _arg("limit", lp["limit"], variant + i, data, i) + _arg("offset", lp["offset"], variant // 3 + i, data, i)
         if lp["cols"] != NONE:
@@ -52,10 +55,10 @@ def concretize(case, variant):
         cells = f"<{item},{{{{{L}.index}}}},{{{{{L}.index0}}}},{{{{{L}.rindex}}}},{{{{{L}.rindex0}}}},{{{{{L}.first}}}},{{{{{L}.last}}}},{{{{{L}.length}}}}"
         if lp["kind"] == "tablerow":
             cells += f",{{{{{L}.row}}}},{{{{{L}.col}}}},{{{{{L}.col_first}}}},{{{{{L}.col_last}}}},{{{{{L}.col0}}}}>"
-            parts.append(f"{{% tablerow x in {coll}{args} %}}{brk}{cells}{{% endtablerow %}}")
+            parts.append(f"{{% tablerow {var} in {coll}{args} %}}{brk}{cells}{{% endtablerow %}}")
         else:
             cells += ">"
-            parts.append(f"{{% for x in {coll}{args} %}}{brk}{cells}{{% else %}}ELSE{{% endfor %}}")
+            parts.append(f"{{% for {var} in {coll}{args} %}}{brk}{cells}{{% else %}}ELSE{{% endfor %}}")
     return "|".join(parts), data
 
 
